@@ -136,6 +136,11 @@ fn main() {
         // parameter type annotations are expressions evaluated at call time in the closure's scope: their free
         // variables are resolved at freeze time like the body's (seeded change C17-a2 skipped them when no
         // parameter has a default)
+        // known finding (F31, same family as F20/F27): a parameter's annotation / default that mentions a parameter
+        // name of its own lambda is evaluated BEFORE the parameters are bound (the name refers outward), but freeze
+        // treats the name as bound and leaves it to be resolved at call time
+        ("param-default-self-ref", "x := 5; f := freeze \\x = x -> x; r1 := f(); x = 50; [r1, f()]", "ok [5,5]"),
+        ("param-annotation-self-ref", "x := int; f := freeze \\x: x -> x; x = str; [try f(3) catch e -> \"E\", try f(\"s\") catch e -> \"E\"]", "ok [3,s:45]"),
         ("annotation-outer-type-var", "ty := int; f := freeze \\x: ty -> x + 1; ty = str; f(3)", "ok 4"),
         ("annotation-outer-type-var-nested", "ty := int; f := freeze \\n -> (g := \\y: ty -> y * 2; g(n)); ty = str; f(4)", "ok 8"),
         ("annotation-unbound-fails-at-freeze", "ok := 1; try (f := freeze \\x: nosuchtype -> x) catch _ -> (ok = 0); ok", "ok 0"),
